@@ -10,7 +10,7 @@ from mirsym.harness import Session
 from mirsym.interp import Unsupported
 from mirsym import bmc, sync
 from mirsym.report import Violation
-from mirsym.models import duration
+from mirsym.models import duration, duration_ns
 
 LEVEL = 'model_checking'
 
@@ -37,6 +37,10 @@ class QHooks:
         v('none_results', z3.BitVecSort(4))
         v('tokens_popped', z3.BitVecSort(4))
         v('early_none', z3.BoolSort())
+        v('pop_none_without_token', z3.BoolSort())
+        v('unblocks_done', z3.BitVecSort(4))
+        for r in self.receivers:
+            v('tok:' + r, z3.BoolSort())
 
     def initial(self, enc, S):
         c = []
@@ -47,7 +51,9 @@ class QHooks:
             for p in sorted(set(p for p, _ in self.prod.values())):
                 c.append(S['last:%s:%s' % (r, p)] == 0)
         c += [z3.Not(S['kf_consumed']), z3.Not(S['bad_order']), z3.Not(S['bad_payload']), S['none_results'] == 0,
-              S['tokens_popped'] == 0, z3.Not(S['early_none'])]
+              S['tokens_popped'] == 0, z3.Not(S['early_none']), z3.Not(S['pop_none_without_token']), S['unblocks_done'] == 0]
+        for r in self.receivers:
+            c.append(z3.Not(S['tok:' + r]))
         return c
 
     def apply_event(self, enc, ev, S, t, k, g, b):
@@ -69,8 +75,11 @@ class QHooks:
             S['kf_consumed'] = z3.Or(S['kf_consumed'], z3.And(z3.Not(is_some), S['wokenNT:' + n]))
             S['wokenNT:' + n] = z3.BoolVal(False)
             if len(ev.args) > 3:
-                # timed call returning nothing: record whether it returned early (C17)
-                S['early_none'] = z3.Or(S['early_none'], ev.args[3])
+                # timed call returning nothing without having consumed a token: did it return early? (C17)
+                S['early_none'] = z3.Or(S['early_none'], z3.And(z3.Not(is_some), z3.Not(S['tok:' + n]), ev.args[3]))
+            if ev.extra == 'pop':
+                S['pop_none_without_token'] = z3.Or(S['pop_none_without_token'], z3.And(z3.Not(is_some), z3.Not(S['tok:' + n])))
+            S['tok:' + n] = z3.BoolVal(False)
             return True
         return False
 
@@ -83,9 +92,12 @@ class QHooks:
         if ev.kind == 'q_push':
             for i in self.ids:
                 S['pushed:%d' % i] = z3.Or(S['pushed:%d' % i], z3.And(ev.args[0] == 0, ev.args[1] == i))
+            S['unblocks_done'] = z3.If(ev.args[0] == 1, S['unblocks_done'] + 1, S['unblocks_done'])
         elif ev.kind == 'q_pop' and n in self.receivers:
             S['wokenNT:' + n] = z3.BoolVal(False)
-            S['tokens_popped'] = z3.If(z3.And(ev.res['nonempty'], ev.res['kind'] == 1), S['tokens_popped'] + 1, S['tokens_popped'])
+            tk = z3.And(ev.res['nonempty'], ev.res['kind'] == 1)
+            S['tokens_popped'] = z3.If(tk, S['tokens_popped'] + 1, S['tokens_popped'])
+            S['tok:' + n] = z3.Or(S['tok:' + n], tk)
 
 
 def find_impl_fn(prog, selfty, method):
@@ -143,18 +155,15 @@ def build_model(S, P, m, C, r, U, K, flavours=('pop', 'try_pop', 'pop_timeout'),
                 fl = flavours[it.ctx.choose(len(flavours), 'flavour')] if len(flavours) > 1 else flavours[0]
                 early = None
                 if fl == 'pop_timeout':
-                    secs = w.fresh_bv('T_secs')
-                    nanos = w.fresh_bv('T_nanos', 32)
-                    it.ctx.add(z3.And(z3.ULT(nanos, 1000000000), z3.ULE(secs * bv(1000000000) + z3.ZeroExt(32, nanos), bv(max_timeout_ns)),
-                                      z3.ULE(secs, bv(max_timeout_ns // 10**9))))
+                    T = w.fresh_bv('T_ns')
+                    w.assume(z3.ULE(T, bv(max_timeout_ns)))
                     if timing:
                         t_call = w.fresh_bv('t_call')
                         w.emit('now', 'clock', [], {'t': t_call})
-                    res = it.run_fn(f[fl], [Ref(mq.cell), duration(secs, nanos)])
+                    res = it.run_fn(f[fl], [Ref(mq.cell), duration_ns(T)])
                     if timing:
                         t_ret = w.fresh_bv('t_ret')
                         w.emit('now', 'clock', [], {'t': t_ret})
-                        T = secs * bv(1000000000) + z3.ZeroExt(32, nanos)
                         early = z3.And(z3.UGE(T, bv(1000000)), z3.ULT(t_ret - t_call, T - bv(1000000)))
                 else:
                     res = it.run_fn(f[fl], [Ref(mq.cell)])
@@ -233,11 +242,12 @@ def c07_queries(enc):
 
 CONFIGS = {
     # name: (P, m, C, r, U, K, flavours, max_events)
-    'quick': [('1p2m-2c1r', 1, 2, 2, 1, 0, 10, ('pop', 'try_pop', 'pop_timeout'), 8),
-              ('2p1m-2c2r', 2, 1, 2, 2, 0, 12, ('pop', 'try_pop', 'pop_timeout'), 8)],
-    'thorough': [('1p2m-2c1r', 1, 2, 2, 1, 0, 14, ('pop', 'try_pop', 'pop_timeout'), 14),
-                 ('2p1m-2c2r', 2, 1, 2, 2, 0, 16, ('pop', 'try_pop', 'pop_timeout'), 16),
-                 ('2p2m-3c2r', 2, 2, 3, 2, 0, 18, ('pop', 'pop_timeout'), 16)],
+    'quick': [('1p1m-2c1r', 1, 1, 2, 1, 0, 8, ('pop', 'try_pop', 'pop_timeout'), 8),
+              ('1p2m-2c1r', 1, 2, 2, 1, 0, 10, ('pop', 'try_pop', 'pop_timeout'), 8)],
+    'thorough': [('1p1m-2c1r', 1, 1, 2, 1, 0, 10, ('pop', 'try_pop', 'pop_timeout'), 10),
+                 ('1p2m-2c1r', 1, 2, 2, 1, 0, 12, ('pop', 'try_pop', 'pop_timeout'), 10),
+                 ('2p1m-2c2r', 2, 1, 2, 2, 0, 12, ('pop', 'try_pop', 'pop_timeout'), 8),
+                 ('2p1m-3c1r', 2, 1, 3, 1, 0, 12, ('pop', 'pop_timeout'), 8)],
 }
 
 
